@@ -143,7 +143,7 @@ New(k, c, i, p, pos) ==
 \* copy a genuine signature element verbatim somewhere else
 CopySig(o, p, pos) ==
     /\ Free # {} /\ p \in Attached /\ kind[p] \in Elems
-    /\ (o = "A" => Level # "response") /\ (o = "R" => Level # "assertion")
+    /\ (o = "A" => Level # "response") /\ (o = "R" => Level # "assertion")        \* o = "X": attacker-made
     /\ LET m == Lowest IN
        /\ kind' = [kind EXCEPT ![m] = "Sig"] /\ sorig' = [sorig EXCEPT ![m] = o]
        /\ kids' = [kids EXCEPT ![p] = Place(@, m, pos), ![m] = <<>>]
@@ -157,6 +157,27 @@ Drop(n) ==
        /\ ida' = [m \in Node |-> IF m \in gone THEN NoId ELSE ida[m]]
        /\ content' = [m \in Node |-> IF m \in gone THEN "-" ELSE content[m]]
        /\ sorig' = [m \in Node |-> IF m \in gone THEN "-" ELSE sorig[m]]
+    /\ Step /\ UNCHANGED root
+\* the classic wrapping move in one step: a forged assertion (id x) takes the place of assertion n, which is nested
+\* below it -- directly or inside a new container placed first -- optionally followed by a signature the attacker
+\* made himself over the forged element (so that "the element's own signature references the element" holds)
+WrapElem(n, c, junk) ==
+    /\ n \in Attached /\ n # root /\ kind[n] = "Asrt"
+    /\ Cardinality(Free) >= (1 + (IF c = "direct" THEN 0 ELSE 1) + (IF junk THEN 1 ELSE 0))
+    /\ LET m == Lowest
+           f2 == Free \ {m}
+           cn == IF c = "direct" THEN 0 ELSE CHOOSE x \in f2 : \A y \in f2 : x <= y
+           f3 == f2 \ {cn}
+           sn == IF junk THEN CHOOSE x \in f3 : \A y \in f3 : x <= y ELSE 0
+           op == Parent(n)
+           inner == IF c = "direct" THEN <<n>> ELSE <<cn>>
+       IN /\ kind' = [x \in Node |-> IF x = m THEN "Asrt" ELSE IF x = cn THEN c ELSE IF x = sn THEN "Sig" ELSE kind[x]]
+          /\ ida' = [ida EXCEPT ![m] = "x"]
+          /\ content' = [content EXCEPT ![m] = "forged"]
+          /\ sorig' = [x \in Node |-> IF x = sn THEN "X" ELSE sorig[x]]
+          /\ kids' = [x \in Node |-> IF x = op THEN [i \in 1..Len(kids[op]) |-> IF kids[op][i] = n THEN m ELSE kids[op][i]]
+                                     ELSE IF x = m THEN inner \o (IF junk THEN <<sn>> ELSE <<>>)
+                                     ELSE IF x = cn THEN <<n>> ELSE kids[x]]
     /\ Step /\ UNCHANGED root
 \* wrap the whole document in a forged response
 WrapRoot(i) ==
@@ -172,8 +193,9 @@ Edit == \/ \E n \in Node : Forge(n) \/ Drop(n)
         \/ \E n \in Node, p \in Node, pos \in {"first", "last"} : Move(n, p, pos)
         \/ \E k \in {"Asrt"} \cup Containers, c \in {"genuine", "forged", "-"}, i \in Ids \cup {NoId},
               p \in Node, pos \in {"first", "last"} : New(k, c, i, p, pos)
-        \/ \E o \in {"A", "R"}, p \in Node, pos \in {"first", "last"} : CopySig(o, p, pos)
+        \/ \E o \in {"A", "R", "X"}, p \in Node, pos \in {"first", "last"} : CopySig(o, p, pos)
         \/ \E i \in Ids \cup {NoId} : WrapRoot(i)
+        \/ \E n \in Node, c \in {"direct", "Leaf", "Advice", "Obj"}, j \in BOOLEAN : WrapElem(n, c, j)
 Next == edits < K /\ Edit
 Spec == Init /\ [][Next]_vars
 
